@@ -107,18 +107,34 @@ def my_diff(grid, pos):
 
 
 def interface_of(d, diff, dist):
-    """interface distance in the direction of each cell (the shape function is the droplet's own)"""
+    """interface distance in the direction of each cell: the DOCUMENTED harmonic series evaluated here
+    (R (1 + sum_n a_n sin n phi + b_n cos n phi) in 2-D, R (1 + sum_k a_k Y_k) in 3-D with the library's real
+    harmonics as basis functions), not the droplet's own `interface_distance` (which C13 compares with its
+    regenerated model) - so a wrong mode number or a dropped term in the series is visible here too"""
+    from droplets.tools import spherical
+
     name = type(d).__name__
     if name in ("SphericalDroplet", "DiffuseDroplet"):
         return np.full(dist.shape, d.radius)
+    amps = [float(a) for a in d.amplitudes]
     with np.errstate(all="ignore"):
         if d.dim == 2:
-            return d.interface_distance(np.arctan2(diff[..., 1], diff[..., 0]).ravel()).reshape(dist.shape)
+            phi = np.arctan2(diff[..., 1], diff[..., 0])
+            series = np.ones(dist.shape)
+            for n in range(1, (len(amps) + 1) // 2 + 1):
+                a = amps[2 * n - 2]
+                b = amps[2 * n - 1] if 2 * n - 1 < len(amps) else 0.0
+                series = series + a * np.sin(n * phi) + b * np.cos(n * phi)
+            return d.radius * series
         theta = np.arccos(np.divide(diff[..., 2], dist, out=np.zeros_like(dist), where=dist > 0))
         phi = np.arctan2(diff[..., 1], diff[..., 0])
-        if name == "PerturbedDroplet3DAxisSym":
-            return d.interface_distance(theta.ravel()).reshape(dist.shape)
-        return d.interface_distance(theta.ravel(), phi.ravel()).reshape(dist.shape)
+        series = np.ones(dist.shape)
+        for k, a in enumerate(amps, 1):
+            if name == "PerturbedDroplet3DAxisSym":
+                series = series + a * spherical.spherical_harmonic_symmetric(k, theta)
+            else:
+                series = series + a * spherical.spherical_harmonic_real_k(k, theta, phi)
+        return d.radius * series
 
 
 def check_field(ck: Check, d, grid, reqs, expect):
